@@ -40,6 +40,10 @@ class List(Expression):
         # Otherwise the list can fail after consuming some elements.
         return True
 
+    def mentioned_names(self):
+        bounds = (self.min_len, self.max_len)
+        return [x for x in bounds if isinstance(x, str) and x.isidentifier()]
+
     def _compile(self, out, flags):
         if self.max_len == 0 or self.max_len == '0':
             out += RESULT << []
